@@ -187,6 +187,7 @@ def gen(rng, tier):
     big_int_clock = rng.random() < 0.08
     if big_int_clock:
         prof.pool = 'INTS'           # an integer clock far above 2**53 (e.g. nanoseconds since the epoch)
+        prof.handlers = ['cont', 'rewait', 'ret']   # ('other' waits 0.5: a float added to such a clock rounds it)
     case = gen_program(rng, prof)
     if big_int_clock:
         case['t0'] = rng.choice([1700000000000000000, 2 ** 60 + 1, 2 ** 53 + 1]) + rng.randint(0, 999)
